@@ -172,6 +172,16 @@ func (o Options) Clone() Options {
 	oo := o
 	if o.TLSClientConfig != nil {
 		oo.TLSClientConfig = o.TLSClientConfig.Clone()
+		// tls.Config.Clone shares the Certificates backing array and the RootCAs pool,
+		// both of which are extended in place (SetCerts, SetRootCertFromString, ...)
+		if n := len(oo.TLSClientConfig.Certificates); n > 0 {
+			certs := make([]tls.Certificate, n)
+			copy(certs, oo.TLSClientConfig.Certificates)
+			oo.TLSClientConfig.Certificates = certs
+		}
+		if oo.TLSClientConfig.RootCAs != nil {
+			oo.TLSClientConfig.RootCAs = oo.TLSClientConfig.RootCAs.Clone()
+		}
 	}
 	if o.Dump != nil {
 		oo.Dump = o.Dump.Clone()
